@@ -34,6 +34,14 @@ void h_edge_compare(void) {
 	if(a.type == ARE_MAX && b.type != ARE_MAX) __CPROVER_assert(ab > 0, "C09: MAX above everything");
 }
 
+/* one call: the body against its contract (contracts/crange_contracts.h) */
+void h_edge_compare_contract(void) {
+	EDGE(a); EDGE(b);
+	int ab = _edge_compare(&a, &b);
+	VF_CANARY();
+	if(a.type == ARE_VALUE && b.type == ARE_VALUE) __CPROVER_assert((ab < 0) == (a.value < b.value), "C09: values ordered by magnitude (128-bit)");
+}
+
 #define RANGE(name) EDGE(name##_l); EDGE(name##_r); asn1cnst_range_t name; memset(&name, 0, sizeof(name)); name.left = name##_l; name.right = name##_r; __CPROVER_assume(wf(&name))
 
 /* _range_overlap <=> the two intervals share an integer */
